@@ -14,7 +14,7 @@ THEOREMS = ["checker_iff_schema", "required_field_removed", "accepted_never_inte
 
 def run(ck: Check) -> None:
     rng = ck.rng
-    docs = mdgen.valid_docs(rng, 60 if ck.thorough else 14)
+    docs = mdgen.valid_docs(rng, ck.n(60, 14))
     cases = []
     for d in docs:
         cases.append(Case("check", ["delegating_metadata", d], tag="valid"))
@@ -43,7 +43,7 @@ def run(ck: Check) -> None:
             accepted.append(v)
     # the verifiers never run into an internal error on anything the checker accepts (as trusted metadata)
     vcases = []
-    for t in accepted[: (400 if ck.thorough else 120)]:
+    for t in accepted[: (ck.n(400, 120))]:
         roles = list(t["signed"]["delegations"].keys())[:2] + ["absent"]
         for role in roles:
             u = gen.envelope({"x": 1})
